@@ -131,6 +131,9 @@ func main() {
 		if c.Bool("symlink") {
 			return symlinkCase(c)
 		}
+		if c.Bool("symtree") {
+			return symtreeCase(c)
+		}
 		name := string(c.B("name"))
 		inner := memfs.New()
 		inner.MkdirAll("refs", 0o777)
